@@ -16,6 +16,12 @@ RULE = ("one case = one run with 1..3 calls of @snark-wrapped functions whose ar
 BIG = [False]       # when set, integer leaves may be hundreds of bits wide and no floats are generated (floats cannot follow exactly)
 
 
+import collections
+NT1 = collections.namedtuple("NT1", "a")
+NT2 = collections.namedtuple("NT2", "a b")
+NT3 = collections.namedtuple("NT3", "a b c")
+
+
 def gen_struct(rnd, depth=0):
     k = rnd.random()
     if depth >= 3 or k < 0.45:
@@ -30,8 +36,10 @@ def gen_struct(rnd, depth=0):
     n = rnd.randint(1, 3)
     if k < 0.7:
         return [gen_struct(rnd, depth + 1) for _ in range(n)]
-    if k < 0.88:
+    if k < 0.82:
         return tuple(gen_struct(rnd, depth + 1) for _ in range(n))
+    if k < 0.88:
+        return [NT1, NT2, NT3][n - 1](*[gen_struct(rnd, depth + 1) for _ in range(n)])     # a tuple subclass with its own constructor
     # keys of every hashable kind a caller may use: they are labels, never values (numeric keys must not become public inputs)
     keys = rnd.sample(["k0", "k1", "zeta", "alpha", "B", "a", "m2", "m10", "_x", 0, 1, 7, -3, 2.5, (1, 2), True, None], n)
     if len({k if not isinstance(k, bool) else ("b", k) for k in keys}) != len({*keys}):
@@ -186,6 +194,8 @@ def main():
             R.inconc("worker %s: %s" % (job["seed"], err))
             continue
         R.merge(res)
+    from vf import lazyimport
+    lazyimport.run_family(R, ['snark'], label="C17")
     R.assumptions = ["bodies use operations that are exact on plain values and on secrets alike (+, -, * int, comparisons)",
                      "bool arguments are public inputs with value 0/1 (whether typed LinComb or LinCombBool is not part of the statement)"]
     return R.finish(require_counters=("public_inputs_compared", "public_outputs_compared", "outputs_forced_unique", "kwargs_refused",
